@@ -269,7 +269,7 @@ func (h *Hist) Next() *proto.Stmt {
 		}
 		nt := len(usable)
 		switch {
-		case nt == 0 || (len(h.DB.Tables) < h.MaxTables && h.R.Chance(1, 12)):
+		case nt == 0 || (len(h.DB.Tables) < h.MaxTables && (h.R.Chance(1, 12) || (h.MaxTables >= 8 && h.R.Chance(1, 3)))):
 			s = h.CreateTable()
 		default:
 			t := usable[h.R.Intn(nt)]
